@@ -9,8 +9,8 @@ def design(name, n, conn, fail, kill, fix=(T, T, T), invs=SAFE + " CleanShutdown
     open(name + ".cfg", "w").write("SPECIFICATION Spec\n" + consts(n, conn, fail, kill, *fix) + "INVARIANTS " + invs + "\nCHECK_DEADLOCK FALSE\n")
 def tick(name, n, conn, fail, kill, fix=(F, F, F)):
     open(name + ".cfg", "w").write("SPECIFICATION TSpec\n" + consts(n, conn, fail, kill, *fix) + "INVARIANTS HealBound Conservation LiveBound\nCHECK_DEADLOCK FALSE\n")
-def sim(name, n, conn, fail, kill, depth, fix=(F, F, F), loop=F, gate=T, heal=1):
-    open(name + ".cfg", "w").write("INIT SimInit\nNEXT SimNext\n" + consts(n, conn, fail, kill, *fix) + "  Depth = %d\n  Loop = %s\n  AddGate = %s\n  MaxHeal = %d\nCHECK_DEADLOCK FALSE\n" % (depth, loop, gate, heal))
+def sim(name, n, conn, fail, kill, depth, fix=(F, F, F), loop=F, gate=T, heal=1, est=F, rcv=F, silent=0):
+    open(name + ".cfg", "w").write("INIT SimInit\nNEXT SimNext\n" + consts(n, conn, fail, kill, *fix) + "  Depth = %d\n  Loop = %s\n  AddGate = %s\n  MaxHeal = %d\n  Est = %s\n  Rcv = %s\n  MaxSilent = %d\nCHECK_DEADLOCK FALSE\n" % (depth, loop, gate, heal, est, rcv, silent))
 # the tree as pinned: pool accounting holds, the shutdown clauses do not (finding 5)
 design("mp_cur2", 2, 4, 1, 2, (F, F, F), SAFE)
 design("mp_cur3", 3, 5, 1, 2, (F, F, F), SAFE)
@@ -38,3 +38,8 @@ sim("bfs_n2", 2, 3, 1, 1, 19)
 sim("loop_n1", 1, 4, 0, 3, 5, loop=T, gate=F)
 sim("loop_n2", 2, 5, 0, 3, 5, loop=T, gate=F)
 sim("loop_n3", 3, 6, 0, 3, 5, loop=T, gate=F)
+# the real establishingConnProvider with a gate inside the dial: DialOk (also after Cancel), kills, Cancel (BFS, all)
+sim("est_n1", 1, 3, 0, 1, 7, gate=F, est=T)
+sim("est_n2", 2, 4, 0, 2, 9, gate=F, est=T)
+# the real receiver provider with TLS: good and silent inbound peers, kills, cancel (BFS; the harness runs those with a Silent)
+sim("rcv_n1", 1, 3, 0, 1, 5, gate=F, rcv=T, silent=1)
